@@ -79,7 +79,26 @@ def gen(seed, tier):
     for i in range(40 * rep):
         icao = r.choice(ICAOS)
         lines = [g.f_df17(icao, me_ident(r.randint(1, 4), r.randint(0, 7), [r.choice([r.randint(1, 26), r.randint(48, 57), 32, 0, 63]) for _ in range(8)])) for _ in range(r.randint(1, 4))]
-        cases.append(("C07-c%d" % i, "C", opts_str({"i": r.choice(["e", "x", "aAews"]), "u": -1, "o": "x"}), seg(0, lines)))
+        cases.append(("C07-c%d" % i, "C", opts_str({"i": r.choice(["e", "x", "aAews"]), "u": -1, "o": "x", "l": i % 3}), seg(0, lines)))
+    # the same callsign again with a different type code / category, and the callsign first learned from Comm-B: the category
+    # recorded is the latest squitter's; a later BDS 2,0 reply with another callsign replaces the first
+    for i in range(20 * rep):
+        icao = r.choice(ICAOS)
+        name = [r.randint(1, 26) for _ in range(r.randint(3, 8))]
+        name += [32] * (8 - len(name))
+        o = {"U": 1} if i % 2 else {}
+        if i % 3 == 0:
+            o["R"] = 1
+        segs = [seg(0, [g.f_df11(icao, ca=5)])]
+        if r.random() < 0.5:
+            segs.append(seg(0, [g.f_long(r.choice([20, 21]), icao, None, bds20(name))]))
+        for _ in range(r.randint(2, 4)):
+            segs.append(seg(0, [g.f_df17(icao, me_ident(r.randint(1, 4), r.randint(0, 7), name))]))
+        other = [r.randint(1, 26) for _ in range(8)]
+        segs.append(seg(0, [g.f_long(r.choice([20, 21]), icao, None, bds20(other))]))
+        segs.append(seg(0, [g.f_long(r.choice([20, 21]), icao, None, bds20(name))]))
+        segs.append(seg(0, [g.f_df17(icao, me_ident(r.randint(1, 4), r.randint(0, 7), name))]))
+        add(o, segs)
     # CLI columns while other markers share the row: ACAS threat marker (BDS 3,0), Comm-B data, positions
     for i in range(12 * rep):
         icao = r.choice(ICAOS)
